@@ -24,12 +24,16 @@ open Bio Bio.GoRt Bio.Generated
 
 /-! ## regions -/
 
+/-- the translated `event{idx, pos, start}` -/
 abbrev Tup := Int × Int × Bool
 
+/-- a model event as the translated struct -/
 def toTup (e : Regions.Ev) : Tup := ((e.idx : Int), e.pos, e.start)
 
+/-- a model index as the translated `[]interval{start, idxs}`: the active sets as Go `int`s -/
 def ofIdx (idx : Regions.Index) : List (Int × List Int) := idx.map fun bp => (bp.1, bp.2.map Int.ofNat)
 
+/-- `eventLess` is the model's `evLess` and never panics -/
 theorem eventLess_eq (hF : GoSrc.eventLess_Found = true) (i j : Nat) (p q : Int) (s t : Bool) :
     GoSrc.eventLess ((i : Int), p, s) ((j : Int), q, t) = some (Regions.evLess ⟨i, p, s⟩ ⟨j, q, t⟩) := by
   first
@@ -52,6 +56,7 @@ theorem forIn_snoc (m : List Int) : ∀ (acc : List Int),
   | nil => intro acc; simp
   | cons a m ih => intro acc; simp [ih]
 
+/-- `keys` returns the members sorted -/
 theorem keys_eq (hF : GoSrc.keys_Found = true) (m : List Int) : GoSrc.keys m = some (sortInts m) := by
   first
   | exact absurd hF (by decide)
@@ -70,6 +75,7 @@ theorem sortInts_sorted (m : List Int) (h : m.Pairwise (· < ·)) : sortInts m =
   apply List.mergeSort_of_pairwise
   exact h.imp (fun hab => by simpa using Int.le_of_lt hab)
 
+/-- … which for the ascending duplicate-free representation of the set is the set itself -/
 theorem keys_eq_self (hF : GoSrc.keys_Found = true) (m : List Int) (h : m.Pairwise (· < ·)) :
     GoSrc.keys m = some m := by
   rw [keys_eq hF, sortInts_sorted m h]
@@ -78,6 +84,11 @@ theorem pairwise_map_ofNat (l : List Nat) (h : l.Pairwise (· < ·)) : (l.map In
   rw [List.pairwise_map]
   exact h.imp (fun hab => by simpa using hab)
 
+theorem keys_map_ofNat (hF : GoSrc.keys_Found = true) (l : List Nat) (h : l.Pairwise (· < ·)) :
+    GoSrc.keys (l.map Int.ofNat) = some (l.map Int.ofNat) :=
+  keys_eq_self hF _ (pairwise_map_ofNat l h)
+
+/-- `cp` returns its argument -/
 theorem cp_eq (hF : GoSrc.cp_Found = true) (a : List Int) : GoSrc.cp a = some a := by
   first
   | exact absurd hF (by decide)
@@ -89,6 +100,9 @@ theorem cp_eq (hF : GoSrc.cp_Found = true) (a : List Int) : GoSrc.cp a = some a 
        have : (len (x :: a) == 0) = false := by simp [len]; omega
        simp only [this]
        simp [copyInto, len])
+
+/-! ### the set operations on the ascending representation -/
+
 theorem setInsert_map (x : Nat) (act : List Nat) :
     setInsert (act.map Int.ofNat) (x : Int) = (Regions.insertNat x act).map Int.ofNat := by
   induction act with
@@ -120,6 +134,9 @@ theorem setErase_map (x : Nat) (act : List Nat) (h : act.Pairwise (· < ·)) :
   · have h' : ¬ ((a : Int) = (x : Int)) := by omega
     rw [bne_iff_ne.2 h, bne_iff_ne.2 h']
 
+/-! ### `NewIndex`: the event loop, the sort, the sweep -/
+
+/-- the loop `for i := range starts { if starts[i] >= ends[i] { continue }; events = append(…) }` -/
 theorem events_loop (starts ends : List Int) (hlen : starts.length = ends.length)
     (body : Int → List Tup → Option (ForInStep (List Tup)))
     (hbody : ∀ (k : Nat) (s e : Int) (acc : List Tup), starts[k]? = some s → ends[k]? = some e →
@@ -147,6 +164,7 @@ theorem events_loop (starts ends : List Int) (hlen : starts.length = ends.length
     · simp [h, toTup]
     · simp [h]
 
+/-- `sort.Slice(events, eventLess)` (as `sortByLess`) is the model's `mergeSort evLe` -/
 theorem sort_events (hF : GoSrc.eventLess_Found = true) (evs : List Regions.Ev) :
     sortByLess (fun a b => (GoSrc.eventLess a b).getD false) (evs.map toTup)
       = (evs.mergeSort Regions.evLe).map toTup := by
@@ -165,6 +183,9 @@ def firstPosOr (evs : List Regions.Ev) (pos : Int) : Int :=
   | e :: _ => e.pos
   | [] => pos
 
+/-- the loop `for i, e := range events { … }` with the mutable `intervals, idxs, pos`, followed by the
+final `append`: the model's `sweep`, for any already emitted prefix `ivs`, any ascending active set
+and any loop index `k` (`pos` is overwritten by the first event's position at `k = 0`) -/
 theorem sweep_loop (body : Int × Tup → SwSt → Option (ForInStep SwSt)) (fin : SwSt → Option (List (Int × List Int)))
     (hbody : ∀ (k : Nat) (e : Regions.Ev) (ivs : List (Int × List Int)) (act : List Nat) (pos : Int),
       act.Pairwise (· < ·) →
@@ -198,6 +219,7 @@ theorem sweep_loop (body : Int × Tup → SwSt → Option (ForInStep SwSt)) (fin
     · have hne : (e.pos != pos1) = true := by simpa using h
       simp [hne, ofIdx]
 
+/-- `NewIndex` is the model's `newIndex`, including the panic exactly when the lengths differ -/
 theorem NewIndex_eq (hF : GoSrc.NewIndex_Found = true) (hE : GoSrc.eventLess_Found = true)
     (hK : GoSrc.keys_Found = true) (starts ends : List Int) :
     GoSrc.NewIndex starts ends = (Regions.newIndex starts ends).map ofIdx := by
@@ -341,6 +363,7 @@ theorem takeWhile_eq_take_of {α : Type} (p : α → Bool) : ∀ (l : List α) (
         have := h2 (by simpa using h)
         simpa using this
 
+/-- `At` on an index with strictly ascending breakpoint positions is the model's `at'`; no panic -/
 theorem Index_At_eq (hF : GoSrc.Index_At_Found = true) (hC : GoSrc.cp_Found = true) (idx : Regions.Index)
     (hs : idx.Pairwise (fun a b => a.1 < b.1)) (i : Int) :
     GoSrc.Index_At (ofIdx idx) i = some ((Regions.at' idx i).map Int.ofNat) := by
@@ -420,6 +443,7 @@ theorem wrWriteAll_append (w : Wr) (a b : List Bytes) :
     · simp only [h, if_true, ih]
     · simp [h]
 
+/-- `(*SAM).Write` performs the model's `Write` calls in order, stopping at the first error -/
 theorem sam_Write_eq (hF : GoSrc.sam_Write_Found = true) (s : Sam.Sam) (w : Wr) :
     GoSrc.sam_Write s.qname s.flag s.rname s.pos s.mapq s.cigar s.rnext s.pnext s.tlen s.seq s.qual
         (Sam.tagsToText s.tags) w
